@@ -161,7 +161,9 @@ def run(ctx):
     s1 = ctx.harness(BIN, "drive", "b1", extra={"isolate": ISOLATE})
     b1files = sorted(glob.glob(os.path.join(s1["_out"], "*.ndjson")))
     b2files = sorted(glob.glob(os.path.join(s2["_out"], "*.ndjson")))
-    ctx.validate(TRACE, _one_file_per_isolated_subject(ctx, b1files + b2files), what="blob store operation history")
+    # short linear runs: the C2 JIT costs more than it gains (measured 9 s -> 2 s CPU per 1 700-event file)
+    ctx.validate(TRACE, _one_file_per_isolated_subject(ctx, b1files + b2files), what="blob store operation history",
+                 jvm="-Xmx2g -XX:TieredStopAtLevel=1")
     # --- binding self-tests: corrupted results must be rejected
     plain = _first_file_with(b1files, lambda h: h.get("subject") == "mem:new") or b1files[0]
     ctx.selftest_corrupt(TRACE, plain, corrupt_get_digest, "digest returned by a successful get changed by one")
@@ -253,7 +255,7 @@ def replay(ctx, path):
     else:
         s = ctx.harness(BIN, "drive", "rp", subject=subj)
     files = sorted(glob.glob(os.path.join(s["_out"], "*.ndjson")))
-    ctx.validate(TRACE, files, what="replay of " + os.path.basename(path))
+    ctx.validate(TRACE, files, what="replay of " + os.path.basename(path), jvm="-Xmx2g -XX:TieredStopAtLevel=1")
     ctx.cov["evaluations"] = s.get("events", 0)
     ctx.cov["distinct_nontrivial"] = s.get("runs", 0)
     ctx.cov["rule"] = "replay of one subject"
